@@ -90,6 +90,15 @@ func (w *c14world) next(m *c14mach) (val string, stop bool) {
 			return c14F(l.F, m.a), false
 		}
 		return "", true
+	case "reassign":
+		// the body assigns to its own parameter and to a local; without recur the next step runs with the
+		// arguments given by new again (S == 0), with recur with those given to recur
+		if m.a+1 < l.N {
+			v := c14F(l.F, m.a+1)
+			m.a += l.S
+			return v, false
+		}
+		return "", true
 	case "gapped":
 		// recur comes first and the guard fails on every third value: a step that ends in StopIterErr has
 		// still moved the iterator on, so the following steps yield again
@@ -139,13 +148,15 @@ func (l *c14lit) finite() bool {
 	switch l.kind {
 	case "counter", "recurfirst", "fib", "kwstep", "captured", "factory", "nilyield", "gapped":
 		return true
+	case "reassign":
+		return l.S > 0
 	}
 	return false
 }
 
 func c14genLit(rng *rand.Rand, idx int, allowCaptured bool) *c14lit {
 	l := &c14lit{name: fmt.Sprintf("g%d", idx), N: rng.Intn(7), S: 1 + rng.Intn(3), F: []string{"i", "i*2", "[i, i]"}[rng.Intn(3)]}
-	kinds := []string{"counter", "counter", "fib", "kwstep", "infinite", "twoyields", "recurfirst", "const", "factory", "factory", "nilyield", "gapped"}
+	kinds := []string{"counter", "counter", "fib", "kwstep", "infinite", "twoyields", "recurfirst", "const", "factory", "factory", "nilyield", "gapped", "reassign"}
 	if allowCaptured {
 		kinds = append(kinds, "captured")
 	}
@@ -184,6 +195,13 @@ func c14genLit(rng *rand.Rand, idx int, allowCaptured bool) *c14lit {
 		l.src = fmt.Sprintf("<{|i| recur(i + %d); yield %s if i < %d}>", l.S, fe, l.N)
 	case "const":
 		l.src = fmt.Sprintf("<{|i| yield %s if i < %d}>", fe, l.N)
+	case "reassign":
+		if rng.Intn(2) == 0 {
+			l.S = 0
+			l.src = fmt.Sprintf("<{|i| i := i + 1; seen := 1; yield %s if i < %d}>", fe, l.N)
+		} else {
+			l.src = fmt.Sprintf("<{|i| j := i; i := i + 1; yield %s if i < %d; recur(j + %d)}>", fe, l.N, l.S)
+		}
 	case "gapped":
 		l.src = fmt.Sprintf("<{|i| recur(i + 1); yield %s if i %% 3 != 2}>", fe)
 		if rng.Intn(2) == 0 {
